@@ -312,7 +312,9 @@ CHECKS = {
               "device's certificate / SHA-1 of its own key} x key type {P-256, P-384, RSA-2048} x TLS max version {1.0, 1.1, 1.2, 1.3} x "
               "offered sub-protocols {none, ship, other, other+ship, SHIP}; the client sends SHIP init + hello and reads. Outbound: a hub is "
               "made to dial (register + mDNS entry) a harness TLS/websocket server presenting a certificate from the same space, dialled SKI "
-              "equal or different. Oracle: accepted (SHIP bytes received or a callback naming a SKI) => certificate present, SKI 20 bytes = "
+              "equal or different; in a quarter of the outbound cases a second, honest peer is registered and announced while the first "
+              "server still sits 30-240 ms in its TLS handshake (two dials in flight), the first server then optionally presents that "
+              "second peer's certificate. Oracle: accepted (SHIP bytes received or a callback naming a SKI) => certificate present, SKI 20 bytes = "
               "SHA-1 of that certificate's public key, TLS >= 1.2, ship offered, attributed SKI = hex of it; generator certificates always "
               "pass; outbound: zero SHIP frames unless presented SKI = dialled SKI and bound to the key. non-trivial = any case with a "
               "certificate; distinct = hash of the case"),
